@@ -10,6 +10,13 @@ CLAIMED = {
          "go/ssa faithful; SMT solvers; math/rand.Uint32 arbitrary; fmt.Errorf pure; slice capacity < 2^48; mixed-radix value lemmas proved by explicit induction in the same run. "
          "The step from 'successor mod P' to 'every combination exactly once per P attempts' is the cyclic-group argument, stated in DESIGN.md section 3 (C10), not mechanised.",
          "contract-based deductive verification: WP over go/ssa, loop invariants + decreases, inductive lemmas, z3/cvc5"),
+ "C03": ("Deductive proof, for all values of the supported universe, of one functional contract per operator: the result is the TLA+ value (stated over an abstract "
+         "universe Val with kinds, projections and extensionality), the function panics with a TLA+ type error exactly under the stated condition (TLC's error conditions), "
+         "every loop terminates (decreases clauses over the iterator model). Covered: =, #, ~, <=>, + - * unary- (with overflow), \\div % (floor semantics), comparisons, .., \\in, \\notin, \\cap, \\cup, \\subseteq, \\, "
+         "IsFiniteSet, Head, Tail, Append, \\o, SubSeq, :>, @@, DOMAIN, and the Value accessors/constructors they rest on (verified against the representation by closed-world dispatch over the seven impl types).",
+         "abs is *defined* by representation axioms (rep*) and the Val vocabulary of /verif/specs/10-tla.spec is trusted as a definition; benbjohnson/immutable is modelled (maps keyed by abs through tla.ValueHasher, iterators by a seen-set); "
+         "closed world for tla.impl; operators not yet under contract are listed in evidence under not_under_contract and are NOT covered: SUBSET, UNION, Cardinality, Len, Seq, Assert, ToString, ^, quantifiers, CHOOSE, comprehension, EXCEPT, cross product, function/record sets.",
+         "contract-based deductive verification: WP over go/ssa, seen-set loop invariants, inductive/nonlinear lemmas, z3/cvc5"),
 }
 
 NOT_APPLICABLE = {
